@@ -814,6 +814,8 @@ class Interp(Engine):
         env = self.bind_params(src.node, args, kwargs, defaults_fn=fn)
         self.sh.modular = getattr(self.sh, "modular", set())
         self.sh.modular.add(c.key)
+        code_env = env
+        env = self.clause_env(env)
         fr = Frame(fn, src, env, dict(fn.__globals__))
         self.frames.append(fr)
         saved_clause = self.in_clause
@@ -833,8 +835,8 @@ class Interp(Engine):
                     vt = cand
                     break
                 for pname, pT in (vt or {}).items():
-                    if pname in env:
-                        cond = self.conforms(env[pname], pT)
+                    if pname in code_env:
+                        cond = self.conforms(code_env[pname], pT)
                         if cond is not None:
                             self.prove(cond, "call_pre", "%s.%s within declared type %r" % (c.key, pname, pT), line)
                 self.in_clause = True
@@ -866,7 +868,7 @@ class Interp(Engine):
                 for fld in c.modifies:
                     self.havoc_field(fld)
                 for pname in c.modifies_lists:
-                    lv = env.get(pname)
+                    lv = code_env.get(pname)
                     if isinstance(lv, VList):
                         pt = next((vt[pname] for vt in c.variants.values() if pname in vt), None)
                         self.havoc_list(lv, "%s.%s'" % (c.key, pname), pt.elem if isinstance(pt, TList) else None)
@@ -938,6 +940,19 @@ class Interp(Engine):
                 return None if inner is None else z3.Or(v.is_none, inner)
             return self.conforms(v, T_.elem)
         return None
+
+    def math_view(self, v):
+        """Clauses speak about mathematical values: numpy fixed-width ints are seen as plain integers."""
+        if isinstance(v, VInt) and v.np is not None:
+            return VInt(v.t, None, v.bv)
+        if isinstance(v, VTuple):
+            return VTuple([self.math_view(x) for x in v.items], v.cls)
+        if isinstance(v, VOpt):
+            return VOpt(v.is_none, self.math_view(v.val))
+        return v
+
+    def clause_env(self, env):
+        return {k: self.math_view(v) for k, v in env.items()}
 
     def eval_clause(self, text):
         tree = self.contract.parse_clause(text)
@@ -1045,7 +1060,7 @@ class Interp(Engine):
             if not self.branch(z3.And(iv.t >= lo, iv.t <= hi)):
                 raise PyRaise(OverflowError, "Python integer out of bounds for numpy type", self.cur_line)
             return VInt(iv.t, npk)
-        return VInt(wrap(iv.t, npk), npk)
+        return VInt(self.wrap_np(iv.t, npk), npk)
 
     def call_builtin_method(self, selfv, name, args, kwargs):
         if name.startswith("list."):
